@@ -797,6 +797,10 @@ func (interp *Interpreter) cfg(root *node, sc *scope, importPath, pkgName string
 					err = n.cfgErrorf("cannot use _ as value")
 					break
 				}
+				if isCall(src) && src.child[0].typ != nil && src.child[0].typ.numOut() > 1 {
+					err = src.cfgErrorf("multiple-value call (%d values) in single-value context", src.child[0].typ.numOut())
+					break
+				}
 				if n.kind == defineStmt || (n.kind == assignStmt && dest.ident == "_") {
 					if atyp != nil {
 						dest.typ = atyp
